@@ -38,8 +38,9 @@ impl Report {
     pub fn check(&mut self, oid: &str, ok: bool, case: &dyn Fn() -> Value, detail: &dyn Fn() -> String) {
         let o = self.obligations.entry(oid.into()).or_default();
         o.cases += 1;
-        if !ok && o.failures.len() < 25 { o.failures.push((case(), detail())); }
-        else if !ok { o.failures.push((Value::Null, String::new())); o.failures.truncate(26); }
+        // keep up to 300 failing cases per obligation so that a NEW failure class is not hidden behind a listed one
+        if !ok && o.failures.len() < 300 { o.failures.push((case(), detail())); }
+        else if !ok { o.failures.push((Value::Null, String::new())); o.failures.truncate(301); }
     }
     pub fn to_json(&self) -> Value {
         let mut obs = serde_json::Map::new();
